@@ -27,7 +27,7 @@ from easynetwork.protocol import StreamProtocol
 from easynetwork.serializers import StringLineSerializer
 
 from vlib import netutil  # noqa: E402
-from vlib import vloop
+from vlib import tlspeer, vloop
 
 PROPERTY = "C20"
 LEVEL = "exploration"
@@ -58,6 +58,7 @@ REQUIRED = [
     "model_sequences",
     "model_two_waiters_parked",
     "datagram_cases",
+    "api:tls.send_all",
     "datagram_send_crossing_high_water_itself",
 ]
 WATCHDOG = {"quick": 1200, "thorough": 7200}
@@ -92,10 +93,32 @@ def real_scenario(ctx, rng: random.Random, api: str, peer_mode: str) -> str | No
             tr = await backend.wrap_stream_socket(c)
             ep = AsyncStreamEndpoint(tr, StreamProtocol(StringLineSerializer(limit=2_000_000)), max_recv_size=1024) if api == "endpoint.send_packet" else None
         inner = getattr(tr, "_AsyncioTransportStreamSocketAdapter__transport")
+        tls = None
+        if api == "tls.send_all":
+            # the TLS transport over the asyncio adapter, used through the low-level API (several concurrent senders)
+            from easynetwork.lowlevel.api_async.transports.tls import AsyncTLSStreamTransport
+
+            class _RawPeer:
+                async def send_all(self_inner, data):
+                    await asyncio.get_running_loop().sock_sendall(s, data)
+
+                async def recv_into(self_inner, buf):
+                    try:
+                        return await asyncio.get_running_loop().sock_recv_into(s, buf)
+                    except OSError:
+                        return 0
+
+            peer = tlspeer.AsyncPeer(_RawPeer(), tlspeer.server_context("1.3"), server_side=True)
+            hs = asyncio.ensure_future(peer.handshake())
+            tls = await AsyncTLSStreamTransport.wrap(tr, tlspeer.client_context("1.3"), server_hostname="localhost", handshake_timeout=1e6, shutdown_timeout=1)
+            await hs
+            await peer.drain()
 
         async def one_send(i: int):
             data = sent_lines[i]
-            if api == "send_all":
+            if api == "tls.send_all":
+                await tls.send_all(data + b"\n")
+            elif api == "send_all":
                 await tr.send_all(data + b"\n")
             elif api == "send_all_from_iterable":
                 await tr.send_all_from_iterable([data[:1000], b"", data[1000:], b"\n"])
@@ -107,7 +130,7 @@ def real_scenario(ctx, rng: random.Random, api: str, peer_mode: str) -> str | No
         async def sender(i: int):
             try:
                 await one_send(i)
-                log.append(("returned", i, inner.get_write_buffer_size(), state["read"], loop.iteration))
+                log.append(("returned", i, inner.get_write_buffer_size() + (tls._write_bio.pending if tls is not None else 0), state["read"], loop.iteration))
             except asyncio.CancelledError:
                 log.append(("cancelled", i))
                 raise
@@ -210,8 +233,12 @@ def real_scenario(ctx, rng: random.Random, api: str, peer_mode: str) -> str | No
     if state.get("parked"):
         ctx.count("senders_suspended", state["parked"])
     # (1) a send that returned must have left nothing in the user-space write buffer
-    for e in log:
-        if e[0] == "returned" and e[2] != 0:
+    rets = [e for e in log if e[0] == "returned"]
+    for e in rets:
+        # TLS transport with several senders: what is queued when one send returns may belong to the senders behind it; only the
+        # last one to return must leave nothing behind
+        # (and a cancelled TLS sender leaves its ciphertext queued: only runs where every sender returned are judged)
+        if e[2] != 0 and (api != "tls.send_all" or (e is rets[-1] and len(rets) == state["N"] and peer_mode == "reads")):
             return f"[{api}] send #{e[1]} returned with {e[2]} bytes still queued in user space (peer had read {e[3]} bytes)"
     # (2) nobody may have completed while the peer read nothing: each payload is far bigger than the kernel buffers
     early = state.get("returned_before_read", [])
@@ -230,6 +257,9 @@ def real_scenario(ctx, rng: random.Random, api: str, peer_mode: str) -> str | No
             return f"[{api}] senders {state['pending_after']} still suspended after the connection was lost ({peer_mode})"
         bad = [e for e in log if e[0] == "returned"]
         if bad:
+            failed = sorted(e[1] for e in log if e[0] == "connerr")
+            if api == "tls.send_all" and all(e[1] >= 2 for e in bad) and failed[:2] == [0, 1]:
+                return f"TLS-QUEUED-SENDER [{api}] sends {sorted(e[1] for e in bad)} (queued third or later behind the send lock) returned normally although the connection was lost ({peer_mode}) before the peer read anything: the second sender took their ciphertext out of the write BIO for its own flush, which failed"
             return f"[{api}] send returned normally although the peer {peer_mode} before reading the payload"
     else:
         if state["pending_after"]:
@@ -464,7 +494,7 @@ def model_sequence(ctx, rng: random.Random) -> str | None:
     return out["why"]
 
 
-APIS = ["send_all", "send_all_from_iterable", "endpoint.send_packet", "client.send_packet"]
+APIS = ["send_all", "send_all_from_iterable", "endpoint.send_packet", "client.send_packet", "tls.send_all"]
 PEERS = ["reads", "reset", "close", "silent-cancel-one"]
 
 
@@ -488,7 +518,9 @@ def run_shard(params: dict, ctx) -> None:
         why = real_scenario(ctx, rng, api, peer)
         ctx.case(True, api, peer, params["seed"], r)
         if why:
-            if "still queued in user space" in why or "returned although the peer had read nothing" in why:
+            if why.startswith("TLS-QUEUED-SENDER"):
+                key = "tls-queued-sender-success-after-failed-flush"
+            elif "still queued in user space" in why or "returned although the peer had read nothing" in why:
                 key = f"no-backpressure:{api}"
             elif "AttributeError" in why and "_add_writer" in why:
                 key = "writelines-on-lost-connection-attributeerror"
